@@ -1,0 +1,357 @@
+//! Verification hooks, compiled only with the `verif` cargo feature (off by default).
+//!
+//! These hooks let an external harness observe executions of the engine without
+//! changing them: a thread-local logical step counter with an optional fuel
+//! limit, a dynamic opcode profile, high-water marks for the backtrack stack /
+//! PikeVM thread list, an optional cooperative yield for thread-interleaving
+//! stress, and re-exports of a few internal functions and types.
+//!
+//! With the feature off, none of this exists and the crate is unchanged.
+
+use crate::insn::Insn;
+use std::cell::Cell;
+
+pub use crate::insn::{CompiledRegex, StartPredicate};
+
+/// Canonicalize (ES 22.2.2.7.3) as implemented by the engine's tables.
+pub fn fold_code_point(c: u32, unicode: bool) -> u32 {
+    crate::unicode::fold_code_point(c, unicode)
+}
+
+/// All code points the engine considers case-equivalent to `c` (compile-time expansion of a literal).
+pub fn expand_code_point(c: u32, icase: bool, unicode: bool) -> Vec<u32> {
+    crate::unicode::expand_code_point(c, icase, unicode)
+}
+
+/// Panic payload used when the fuel limit is hit.
+#[derive(Debug, Clone, Copy)]
+pub struct FuelExhausted;
+
+/// Where a tick came from.
+#[derive(Debug, Clone, Copy, PartialEq, Eq)]
+#[repr(usize)]
+pub enum Site {
+    BacktrackInsn = 0,
+    BacktrackPop = 1,
+    PikeStep = 2,
+    ParseTerm = 3,
+    OptimizerPass = 4,
+    OptimizerNode = 5,
+    EmitNode = 6,
+}
+pub const SITE_COUNT: usize = 7;
+pub const SITE_NAMES: [&str; SITE_COUNT] = [
+    "bt_insn",
+    "bt_pop",
+    "pike_step",
+    "parse_term",
+    "opt_pass",
+    "opt_node",
+    "emit_node",
+];
+
+/// Names of instruction kinds, indexed by `insn_kind`.
+pub const INSN_KIND_NAMES: [&str; 31] = [
+    "Goal",
+    "Char",
+    "StartOfLine",
+    "EndOfLine",
+    "MatchAny",
+    "MatchAnyExceptLineTerminator",
+    "EnterLoop",
+    "LoopAgain",
+    "Loop1CharBody",
+    "Jump",
+    "Alt",
+    "BeginCaptureGroup",
+    "EndCaptureGroup",
+    "ResetCaptureGroup",
+    "BackRef",
+    "BackRefICase",
+    "Bracket",
+    "AsciiBracket",
+    "Lookahead",
+    "NegLookahead",
+    "Lookbehind",
+    "NegLookbehind",
+    "WordBoundary",
+    "WordBoundaryUnicodeICase",
+    "CharSet",
+    "ByteSet2",
+    "ByteSet3",
+    "ByteSet4",
+    "ByteSeq1to4",
+    "ByteSeq5to16",
+    "JustFail",
+];
+pub const INSN_KINDS: usize = INSN_KIND_NAMES.len();
+
+/// Names of backtrack record kinds, indexed by the value passed to `tick_pop`.
+pub const POP_KIND_NAMES: [&str; 7] = [
+    "Exhausted",
+    "SetPosition",
+    "SetLoopData",
+    "SetCaptureGroup",
+    "EnterNonGreedyLoop",
+    "GreedyLoop1Char",
+    "NonGreedyLoop1Char",
+];
+pub const POP_KINDS: usize = POP_KIND_NAMES.len();
+
+pub fn insn_kind(insn: &Insn) -> usize {
+    match insn {
+        Insn::Goal => 0,
+        Insn::Char(..) => 1,
+        Insn::StartOfLine { .. } => 2,
+        Insn::EndOfLine { .. } => 3,
+        Insn::MatchAny => 4,
+        Insn::MatchAnyExceptLineTerminator => 5,
+        Insn::EnterLoop(..) => 6,
+        Insn::LoopAgain { .. } => 7,
+        Insn::Loop1CharBody { .. } => 8,
+        Insn::Jump { .. } => 9,
+        Insn::Alt { .. } => 10,
+        Insn::BeginCaptureGroup(..) => 11,
+        Insn::EndCaptureGroup(..) => 12,
+        Insn::ResetCaptureGroup(..) => 13,
+        Insn::BackRef { icase: false, .. } => 14,
+        Insn::BackRef { icase: true, .. } => 15,
+        Insn::Bracket(..) => 16,
+        Insn::AsciiBracket(..) => 17,
+        Insn::Lookahead { negate: false, .. } => 18,
+        Insn::Lookahead { negate: true, .. } => 19,
+        Insn::Lookbehind { negate: false, .. } => 20,
+        Insn::Lookbehind { negate: true, .. } => 21,
+        Insn::WordBoundary { .. } => 22,
+        Insn::WordBoundaryUnicodeICase { .. } => 23,
+        Insn::CharSet(..) => 24,
+        Insn::ByteSet2(..) => 25,
+        Insn::ByteSet3(..) => 26,
+        Insn::ByteSet4(..) => 27,
+        Insn::ByteSeq1(..) | Insn::ByteSeq2(..) | Insn::ByteSeq3(..) | Insn::ByteSeq4(..) => 28,
+        Insn::ByteSeq5(..)
+        | Insn::ByteSeq6(..)
+        | Insn::ByteSeq7(..)
+        | Insn::ByteSeq8(..)
+        | Insn::ByteSeq9(..)
+        | Insn::ByteSeq10(..)
+        | Insn::ByteSeq11(..)
+        | Insn::ByteSeq12(..)
+        | Insn::ByteSeq13(..)
+        | Insn::ByteSeq14(..)
+        | Insn::ByteSeq15(..)
+        | Insn::ByteSeq16(..) => 29,
+        Insn::JustFail => 30,
+    }
+}
+
+/// Snapshot of the thread-local counters.
+#[derive(Debug, Clone)]
+pub struct Counters {
+    /// Ticks per site since the last `reset`.
+    pub sites: [u64; SITE_COUNT],
+    /// Instruction executions in the backtracker: [kind][0 = forward, 1 = backward].
+    pub bt_insns: [[u64; 2]; INSN_KINDS],
+    /// Instruction executions in the PikeVM: [kind][0 = forward, 1 = backward].
+    pub pike_insns: [[u64; 2]; INSN_KINDS],
+    /// Backtrack records examined, per kind.
+    pub pops: [u64; POP_KINDS],
+    /// High-water mark of the backtrack stack length.
+    pub max_bts: usize,
+    /// High-water mark of the PikeVM state list length.
+    pub max_pike_states: usize,
+}
+
+impl Counters {
+    pub const fn new() -> Self {
+        Counters {
+            sites: [0; SITE_COUNT],
+            bt_insns: [[0; 2]; INSN_KINDS],
+            pike_insns: [[0; 2]; INSN_KINDS],
+            pops: [0; POP_KINDS],
+            max_bts: 0,
+            max_pike_states: 0,
+        }
+    }
+    /// Total number of ticks.
+    pub fn steps(&self) -> u64 {
+        self.sites.iter().sum()
+    }
+}
+
+impl Default for Counters {
+    fn default() -> Self {
+        Self::new()
+    }
+}
+
+struct Tls {
+    // Remaining fuel; u64::MAX means unlimited.
+    fuel: Cell<u64>,
+    // Yield to other threads every this many ticks; 0 means never.
+    yield_every: Cell<u64>,
+    yield_countdown: Cell<u64>,
+    // Whether the profile (per-kind counters) is being recorded.
+    profile: Cell<bool>,
+    counters: core::cell::RefCell<Counters>,
+}
+
+thread_local! {
+    static TLS: Tls = const { Tls {
+        fuel: Cell::new(u64::MAX),
+        yield_every: Cell::new(0),
+        yield_countdown: Cell::new(0),
+        profile: Cell::new(true),
+        counters: core::cell::RefCell::new(Counters::new()),
+    } };
+}
+
+/// Arm (Some) or disarm (None) the fuel limit for the current thread.
+/// When armed, the n+1'th tick panics with a `FuelExhausted` payload.
+pub fn set_fuel(fuel: Option<u64>) {
+    TLS.with(|t| t.fuel.set(fuel.unwrap_or(u64::MAX)));
+}
+
+/// Enable or disable recording of the per-kind profile (site counts and high-water marks are always recorded).
+pub fn set_profile(on: bool) {
+    TLS.with(|t| t.profile.set(on));
+}
+
+/// Ask the current thread to call `std::thread::yield_now()` every `n` ticks (0 = never).
+pub fn set_yield_every(n: u64) {
+    TLS.with(|t| {
+        t.yield_every.set(n);
+        t.yield_countdown.set(n);
+    });
+}
+
+/// Reset all counters of the current thread.
+pub fn reset() {
+    TLS.with(|t| *t.counters.borrow_mut() = Counters::new());
+}
+
+/// Return a snapshot of the counters of the current thread.
+pub fn snapshot() -> Counters {
+    TLS.with(|t| t.counters.borrow().clone())
+}
+
+/// Return the counters of the current thread and reset them.
+pub fn take() -> Counters {
+    TLS.with(|t| core::mem::take(&mut *t.counters.borrow_mut()))
+}
+
+#[inline]
+fn consume(t: &Tls) {
+    let fuel = t.fuel.get();
+    if fuel != u64::MAX {
+        if fuel == 0 {
+            // Disarm so that unwinding code may tick freely.
+            t.fuel.set(u64::MAX);
+            std::panic::panic_any(FuelExhausted);
+        }
+        t.fuel.set(fuel - 1);
+    }
+    let every = t.yield_every.get();
+    if every != 0 {
+        let left = t.yield_countdown.get();
+        if left <= 1 {
+            t.yield_countdown.set(every);
+            std::thread::yield_now();
+        } else {
+            t.yield_countdown.set(left - 1);
+        }
+    }
+}
+
+/// A generic tick from a compile-side site.
+#[inline]
+pub fn tick(site: Site) {
+    TLS.with(|t| {
+        t.counters.borrow_mut().sites[site as usize] += 1;
+        consume(t);
+    });
+}
+
+/// A tick from the backtracking interpreter's instruction dispatch.
+#[inline]
+pub fn tick_bt_insn(insn: &Insn, forward: bool, bts_len: usize) {
+    TLS.with(|t| {
+        {
+            let mut c = t.counters.borrow_mut();
+            c.sites[Site::BacktrackInsn as usize] += 1;
+            if bts_len > c.max_bts {
+                c.max_bts = bts_len;
+            }
+            if t.profile.get() {
+                c.bt_insns[insn_kind(insn)][if forward { 0 } else { 1 }] += 1;
+            }
+        }
+        consume(t);
+    });
+}
+
+/// A tick from the backtracking interpreter's pop loop.
+#[inline]
+pub fn tick_bt_pop(kind: usize, bts_len: usize) {
+    TLS.with(|t| {
+        {
+            let mut c = t.counters.borrow_mut();
+            c.sites[Site::BacktrackPop as usize] += 1;
+            if bts_len > c.max_bts {
+                c.max_bts = bts_len;
+            }
+            if t.profile.get() {
+                c.pops[kind] += 1;
+            }
+        }
+        consume(t);
+    });
+}
+
+/// A tick from the PikeVM's state loop.
+#[inline]
+pub fn tick_pike(insn: &Insn, forward: bool, states_len: usize) {
+    TLS.with(|t| {
+        {
+            let mut c = t.counters.borrow_mut();
+            c.sites[Site::PikeStep as usize] += 1;
+            if states_len > c.max_pike_states {
+                c.max_pike_states = states_len;
+            }
+            if t.profile.get() {
+                c.pike_insns[insn_kind(insn)][if forward { 0 } else { 1 }] += 1;
+            }
+        }
+        consume(t);
+    });
+}
+
+/// \return a short name for the kind of start predicate chosen for a regex.
+pub fn start_pred_kind(re: &crate::Regex) -> &'static str {
+    match &re.verif_compiled().start_pred {
+        StartPredicate::Arbitrary => "Arbitrary",
+        StartPredicate::ByteSet1(..) => "ByteSet1",
+        StartPredicate::ByteSet2(..) => "ByteSet2",
+        StartPredicate::ByteSet3(..) => "ByteSet3",
+        StartPredicate::ByteSeq(..) => "ByteSeq",
+        StartPredicate::ByteBracket(..) => "ByteBracket",
+        StartPredicate::StartAnchored => "StartAnchored",
+    }
+}
+
+/// \return a copy of the regex whose start predicate has been replaced with Arbitrary,
+/// so that every start offset is attempted.
+pub fn with_arbitrary_start_pred(re: &crate::Regex) -> crate::Regex {
+    let mut cr = re.verif_compiled().clone();
+    cr.start_pred = StartPredicate::Arbitrary;
+    crate::Regex::from(cr)
+}
+
+/// \return the instruction kinds (names) present in the compiled program, in order.
+pub fn insn_kinds(re: &crate::Regex) -> Vec<&'static str> {
+    re.verif_compiled()
+        .insns
+        .iter()
+        .map(|i| INSN_KIND_NAMES[insn_kind(i)])
+        .collect()
+}
